@@ -1,5 +1,7 @@
 SPECIFICATION Spec
 CONSTANT Which = "C17"
+CONSTANT SmallLen = 6
+CONSTANT AsBuilt = {}
 CONSTANT MaxLen = 4
 INVARIANTS StaysOnOrigin OnlyOwnHttpsHosts
 CHECK_DEADLOCK FALSE
